@@ -351,6 +351,10 @@ class Machine:
             self.alias[s["name"]] = v
             self.labels.add("local_signal")
             self.fresh = False
+        elif k == "localarr":
+            self.var[s["name"]] = [self.ev(e, env) for e in s["elems"]]
+            self.objs.setdefault(s["name"], {"name": s["name"], "kind": "arr", "w": self.W, "n": len(s["elems"]), "group": "vars"})
+            self.fresh = False
         elif k == "localvar":
             self.var[s["name"]] = self.ev(s["e"], env)
             self.objs.setdefault(s["name"], {"name": s["name"], "kind": s["kind"], "w": s.get("w", self.W), "group": "vars"})
